@@ -15,12 +15,24 @@ type PoolCfg struct {
 	WildHeavy bool // more wildcards
 	TSlash    int  // out of 8: probability that a pattern ends with '/'
 	Fanout    bool // add > 50 static siblings under one node
+	Deep      bool // add a chain of nested prefixes deeper than 25 tree levels
+	HostHeavy bool // two fresh patterns in three carry a hostname, and mutations keep the host more often
+	Odd       bool // static segments also use bytes that sort before '*', between '*' and '{', and after '{'
 }
 
 var statics = []string{"a", "b", "ab", "ba", "c"}
+
+// oddStatics start with bytes on every side of the wildcard markers in byte order ('*' = 0x2A, '{' = 0x7B): child
+// ordering and the param/catch-all child indexes of a node depend on where its static siblings sort.
+var oddStatics = []string{"a", "b", "ab", "c", "$", "!a", "(", "+b", "-", "0", "Z", "_a", "|", "~b"}
 var hostLabels = []string{"a", "b", "ab", "c"}
 
-func genSegment(s sim.Source, depth int, wildHeavy bool, prevCatch bool) (seg string, isCatch bool) {
+func genSegment(s sim.Source, depth int, cfg PoolCfg, prevCatch bool) (seg string, isCatch bool) {
+	wildHeavy := cfg.WildHeavy
+	statics := statics
+	if cfg.Odd {
+		statics = oddStatics
+	}
 	w := 3
 	if wildHeavy {
 		w = 6
@@ -65,7 +77,7 @@ func genFresh(s sim.Source, cfg PoolCfg) string {
 	var sb strings.Builder
 	prevCatch := false
 	for d := 0; d < n; d++ {
-		seg, c := genSegment(s, d, cfg.WildHeavy, prevCatch)
+		seg, c := genSegment(s, d, cfg, prevCatch)
 		prevCatch = c && !strings.ContainsAny(seg[:1], "ab")
 		sb.WriteByte('/')
 		sb.WriteString(seg)
@@ -91,7 +103,7 @@ func mutate(s sim.Source, p string, cfg PoolCfg) string {
 	case 0, 1: // append a segment
 		if len(segs) < cfg.MaxSegs {
 			prevCatch := len(segs) > 0 && strings.HasPrefix(segs[len(segs)-1], "*")
-			seg, _ := genSegment(s, len(segs), cfg.WildHeavy, prevCatch)
+			seg, _ := genSegment(s, len(segs), cfg, prevCatch)
 			segs = append(segs, seg)
 		}
 	case 2: // toggle trailing slash
@@ -99,7 +111,7 @@ func mutate(s sim.Source, p string, cfg PoolCfg) string {
 	case 3: // replace last segment
 		if len(segs) > 0 {
 			prevCatch := len(segs) > 1 && strings.HasPrefix(segs[len(segs)-2], "*")
-			seg, _ := genSegment(s, len(segs)-1, cfg.WildHeavy, prevCatch)
+			seg, _ := genSegment(s, len(segs)-1, cfg, prevCatch)
 			segs[len(segs)-1] = seg
 		}
 	case 4: // truncate
@@ -110,7 +122,7 @@ func mutate(s sim.Source, p string, cfg PoolCfg) string {
 		if len(segs) > 0 {
 			i := s.Intn("mi", len(segs))
 			prevCatch := i > 0 && strings.HasPrefix(segs[i-1], "*")
-			seg, c := genSegment(s, i, cfg.WildHeavy, prevCatch)
+			seg, c := genSegment(s, i, cfg, prevCatch)
 			if !(c && i+1 < len(segs) && strings.HasPrefix(segs[i+1], "*")) {
 				segs[i] = seg
 			}
@@ -147,7 +159,7 @@ func GenPool(s sim.Source, cfg PoolCfg) []*model.Pattern {
 			raw = mutate(s, out[s.Intn("from", len(out))].Raw, cfg)
 		} else {
 			raw = genFresh(s, cfg)
-			if cfg.Hosts && s.Intn("withhost", 3) == 2 {
+			if wh := s.Intn("withhost", 3); cfg.Hosts && (wh == 2 || (cfg.HostHeavy && wh == 1)) {
 				raw = genHost(s) + raw
 			}
 		}
@@ -172,6 +184,27 @@ func GenPool(s sim.Source, cfg PoolCfg) []*model.Pattern {
 				c = byte('a' + i - 36 + 3) // d.. (a,b,c are used by the alphabet)
 			}
 			raw := "/f/" + string(c) + "x"
+			if p, err := model.Parse(raw); err == nil && !seen[raw] {
+				seen[raw] = true
+				out = append(out, p)
+			}
+		}
+		// siblings on the far sides of the wildcard markers, and wildcard children of the wide node with routes below them
+		for _, raw := range []string{"/f/!x", "/f/$x", "/f/|x", "/f/~x", "/f/{p}", "/f/*{q}", "/f/{p}/t", "/f/*{q}/t"} {
+			if p, err := model.Parse(raw); err == nil && !seen[raw] {
+				seen[raw] = true
+				out = append(out, p)
+			}
+		}
+	}
+	if cfg.Deep && len(out) > 0 {
+		// a branch deeper than 25 nodes: iterators and the lookup's backtracking stack size themselves from the depth
+		chain := strings.Repeat("d", 27)
+		raws := []string{"/~" + chain + "/{p}", "/~" + chain + "/{p}/x", "/~" + chain[:13] + "/", "/~" + chain[:20] + "/*{q}"}
+		for i := 1; i <= 27; i++ {
+			raws = append(raws, "/~"+chain[:i])
+		}
+		for _, raw := range raws {
 			if p, err := model.Parse(raw); err == nil && !seen[raw] {
 				seen[raw] = true
 				out = append(out, p)
